@@ -3,6 +3,7 @@
 package pfcp
 
 import (
+	"syscall"
 	"io"
 	"net"
 	"runtime"
@@ -68,12 +69,25 @@ func zzEnvReset() {
 }
 
 func zzDrain() {
+	// non-blocking reads: what the loop-back sockets hold NOW. (A read with a short deadline is not the
+	// same thing: Go checks the deadline before it looks at the socket, so on a loaded machine a
+	// 2 ms deadline can expire before the read starts and hide a datagram that is already there.)
 	buf := make([]byte, 65536)
 	for _, c := range zzSinks {
+		rc, err := c.SyscallConn()
+		if err != nil {
+			continue
+		}
 		for {
-			c.SetReadDeadline(time.Now().Add(2 * time.Millisecond))
-			n, _, err := c.ReadFrom(buf)
-			if err != nil {
+			n := -1
+			rc.Read(func(fd uintptr) bool {
+				k, _, e := syscall.Recvfrom(int(fd), buf, syscall.MSG_DONTWAIT)
+				if e == nil {
+					n = k
+				}
+				return true // never park: EAGAIN means "nothing there"
+			})
+			if n < 0 {
 				break
 			}
 			b := make([]byte, n)
@@ -99,11 +113,11 @@ func zzYield() {
 				idle = false
 			}
 		}
-		if idle && i >= 2 {
+		if idle && i >= 4 {
 			break
 		}
 	}
-	time.Sleep(3 * time.Millisecond)
+	time.Sleep(6 * time.Millisecond)
 }
 func zzExpectExit()        {}
 func zzTimersActive() int  { return -1 }
